@@ -196,7 +196,8 @@ def java_groovy(text, lang):
     toks = lex(FUNIF.sub("", scan.blank_literals(text)))
     n = len(toks)
     classes, funs, vars_, fields = [], [], [], []
-    starts = [0] + [i + 1 for i, t in enumerate(toks) if t == "\n"]
+    # statements start after a newline and - the translator flattens the arguments of a super call onto one line - after ; { }
+    starts = [0] + [i + 1 for i, t in enumerate(toks) if t in ("\n", ";", "{", "}")]
     for s in starts:
         if s >= n or toks[s] == "\n":
             continue
